@@ -18,6 +18,11 @@ theorem retrySubUnsubW_ents (p rid : Nat) (dup s : Bool) (w : World) : (retrySub
 theorem retrySubUnsubW_protos (p rid : Nat) (dup s : Bool) (w : World) : (retrySubUnsubW p rid dup s w).protos = w.protos := by
   simp only [retrySubUnsubW]; split <;> simp
 
+theorem retryPublishW_connReqs (p rid : Nat) (dup : Bool) (w : World) : (retryPublishW p rid dup w).connReqs = w.connReqs := by
+  simp only [retryPublishW]; split <;> simp
+theorem retryReleaseW_connReqs (p rid : Nat) (dup : Bool) (w : World) : (retryReleaseW p rid dup w).connReqs = w.connReqs := by
+  simp only [retryReleaseW]; split <;> simp
+
 /-- a retransmission helper keeps every alarm that is set and changes no other request's alarm -/
 theorem retryPublishW_alarm (p rid : Nat) (dup : Bool) (w : World) (r : Nat) :
     ((w.req r).alarm ≠ none → ((retryPublishW p rid dup w).req r).alarm ≠ none) ∧
@@ -84,6 +89,7 @@ structure Purged (w w' : World) (l : List Ent) : Prop where
   reqs : w'.reqs = w.reqs
   protos : w'.protos = w.protos
   timers : w'.timers = w.timers
+  connReqs : w'.connReqs = w.connReqs
   mem : ∀ y, y ∈ w'.ents ↔ y ∈ w.ents ∧ ¬ (y ∈ l ∧ (w.req y.rid).alarm = none)
 
 theorem purgeLoop_inv {x : Option Nat} (box : Box) (hbq : box ≠ .queue) (reason : Err) :
@@ -95,7 +101,7 @@ theorem purgeLoop_inv {x : Option Nat} (box : Box) (hbq : box ≠ .queue) (reaso
     r.2 = none ∧ WInvX x r.1 ∧ Purged w r.1 l := by
   intro l
   induction l with
-  | nil => intro w h _ _; exact ⟨rfl, h, rfl, rfl, rfl, fun y => by show y ∈ w.ents ↔ _; simp⟩
+  | nil => intro w h _ _; exact ⟨rfl, h, rfl, rfl, rfl, rfl, fun y => by show y ∈ w.ents ↔ _; simp⟩
   | cons e l ih =>
     intro w h hl hnd
     obtain ⟨he, heb⟩ := hl e (by simp)
@@ -126,7 +132,7 @@ theorem purgeLoop_inv {x : Option Nat} (box : Box) (hbq : box ≠ .queue) (reaso
       obtain ⟨r1, r2, r3⟩ := ih hS hl' hnd'.2
       refine ⟨r1, r2, ?_⟩
       have hreq : ∀ r0, (fireD (w.setEnts fun es => Ents.remove es e.addr e.box e.key) d (.fired d (.fail reason))).req r0 = w.req r0 := fun _ => rfl
-      refine ⟨r3.reqs, r3.protos, r3.timers, fun y => ?_⟩
+      refine ⟨r3.reqs, r3.protos, r3.timers, r3.connReqs, fun y => ?_⟩
       rw [r3.mem y]
       simp only [hreq]
       have := hmem y
@@ -146,7 +152,7 @@ theorem purgeLoop_inv {x : Option Nat} (box : Box) (hbq : box ≠ .queue) (reaso
           = (w, none) := by simp only [read_apply, hal, ↓reduceIte]; rfl
       rw [seq_ok s1]
       obtain ⟨r1, r2, r3⟩ := ih h (fun e' he' => hl e' (by simp [he'])) hnd'.2
-      refine ⟨r1, r2, r3.reqs, r3.protos, r3.timers, fun y => ?_⟩
+      refine ⟨r1, r2, r3.reqs, r3.protos, r3.timers, r3.connReqs, fun y => ?_⟩
       rw [r3.mem y]
       constructor
       · rintro ⟨a, b⟩
@@ -176,7 +182,7 @@ theorem ArmedIn.mono {B : Box → Prop} {w w' : World} {a : Nat} (h : ArmedIn B 
 theorem purgeSession_inv {x : Option Nat} {w : World} (h : WInvX x w) (p : Nat) (reason : Err) :
     (purgeSession p reason w).2 = none ∧ WInvX x (purgeSession p reason w).1 ∧
     (purgeSession p reason w).1.reqs = w.reqs ∧ (purgeSession p reason w).1.protos = w.protos ∧
-    (purgeSession p reason w).1.timers = w.timers ∧
+    (purgeSession p reason w).1.timers = w.timers ∧ (purgeSession p reason w).1.connReqs = w.connReqs ∧
     (∀ y ∈ (purgeSession p reason w).1.ents, y ∈ w.ents) ∧
     (∀ y ∈ w.ents, y.box = .queue ∨ y.box = .sub ∨ y.box = .unsub ∨ y.addr ≠ w.paddr p → y ∈ (purgeSession p reason w).1.ents) ∧
     ArmedIn (fun b => b = .pub ∨ b = .rel) (purgeSession p reason w).1 (w.paddr p) := by
@@ -190,7 +196,7 @@ theorem purgeSession_inv {x : Option Nat} {w : World} (h : WInvX x w) (p : Nat) 
   have hreq2 : ∀ r, (purgeWindow p true reason w1).1.req r = w.req r := fun r => by rw [req_of_reqs b3.reqs, hreq]
   simp only [purgeSession]
   rw [seq_ok s1]
-  refine ⟨b1, b2, by rw [b3.reqs, a3.reqs], by rw [b3.protos, a3.protos], by rw [b3.timers, a3.timers], ?_, ?_, ?_⟩
+  refine ⟨b1, b2, by rw [b3.reqs, a3.reqs], by rw [b3.protos, a3.protos], by rw [b3.timers, a3.timers], by rw [b3.connReqs, a3.connReqs], ?_, ?_, ?_⟩
   · intro y hy; exact ((a3.mem y).mp ((b3.mem y).mp hy).1).1
   · intro y hy hb
     refine (b3.mem y).mpr ⟨(a3.mem y).mpr ⟨hy, fun hc => ?_⟩, fun hc => ?_⟩
@@ -226,10 +232,10 @@ theorem syncLoop_inv {x : Option Nat} (p : Nat) (ppr : Proto) (hlive : ppr.lost 
     let w' := l.foldl (fun w e => if (w.req e.rid).alarm = none then
         (if isRel then retryReleaseW p e.rid true w else retryPublishW p e.rid true w) else w) w
     WInvX x w' ∧ w'.protos = w.protos ∧ w'.ents = w.ents ∧ (∀ r, (w.req r).alarm ≠ none → (w'.req r).alarm ≠ none) ∧
-    (∀ e ∈ l, (w'.req e.rid).alarm ≠ none) := by
+    (∀ e ∈ l, (w'.req e.rid).alarm ≠ none) ∧ w'.connReqs = w.connReqs := by
   intro l
   induction l with
-  | nil => intro w h _ _; exact ⟨h, rfl, rfl, fun _ a => a, fun _ he => by cases he⟩
+  | nil => intro w h _ _; exact ⟨h, rfl, rfl, fun _ a => a, fun _ he => (by cases he), rfl⟩
   | cons e l ih =>
     intro w h hpp hl
     obtain ⟨he, hq, hea⟩ := hl e (by simp)
@@ -254,16 +260,18 @@ theorem syncLoop_inv {x : Option Nat} (p : Nat) (ppr : Proto) (hlive : ppr.lost 
         | true => exact ⟨(retryReleaseW_alarm p e.rid true w r).1, (retryReleaseW_alarm p e.rid true w r).2.2⟩
         | false => exact ⟨(retryPublishW_alarm p e.rid true w r).1, (retryPublishW_alarm p e.rid true w r).2.2 hm0⟩
       rw [← hw1]
-      obtain ⟨r1, r2, r3, r4, r5⟩ := ih hw1i (by rw [hw1p]; exact hpp)
+      have hw1c : w1.connReqs = w.connReqs := by
+        rw [hw1]; cases isRel <;> simp [retryReleaseW_connReqs, retryPublishW_connReqs]
+      obtain ⟨r1, r2, r3, r4, r5, r6⟩ := ih hw1i (by rw [hw1p]; exact hpp)
         (fun e' he' => by rw [hw1e]; exact hl e' (by simp [he']))
-      refine ⟨r1, by rw [r2, hw1p], by rw [r3, hw1e], fun r hr => r4 r ((hw1a r).1 hr), fun e' he' => ?_⟩
+      refine ⟨r1, by rw [r2, hw1p], by rw [r3, hw1e], fun r hr => r4 r ((hw1a r).1 hr), fun e' he' => ?_, by rw [r6, hw1c]⟩
       simp only [List.mem_cons] at he'
       rcases he' with rfl | he'
       · exact r4 _ (hw1a e'.rid).2
       · exact r5 e' he'
     · simp only [hal, ↓reduceIte]
-      obtain ⟨r1, r2, r3, r4, r5⟩ := ih h hpp (fun e' he' => hl e' (by simp [he']))
-      refine ⟨r1, r2, r3, r4, fun e' he' => ?_⟩
+      obtain ⟨r1, r2, r3, r4, r5, r6⟩ := ih h hpp (fun e' he' => hl e' (by simp [he']))
+      refine ⟨r1, r2, r3, r4, fun e' he' => ?_, r6⟩
       simp only [List.mem_cons] at he'
       rcases he' with rfl | he'
       · exact r4 _ hal
@@ -274,7 +282,7 @@ theorem syncW_inv {x : Option Nat} {w : World} (h : WInvX x w) (p : Nat) (ppr : 
     (hlive : ppr.lost = false) :
     WInvX x (syncW p w) ∧ (syncW p w).protos = w.protos ∧ (syncW p w).ents = w.ents ∧
     (∀ r, (w.req r).alarm ≠ none → ((syncW p w).req r).alarm ≠ none) ∧
-    ArmedIn (fun b => b = .pub ∨ b = .rel) (syncW p w) ppr.addr := by
+    ArmedIn (fun b => b = .pub ∨ b = .rel) (syncW p w) ppr.addr ∧ (syncW p w).connReqs = w.connReqs := by
   have hpa : w.paddr p = ppr.addr := by simp [World.paddr, getD_of_get? hpp]
   have A := syncLoop_inv (x := x) p ppr hlive true (Ents.items w.ents ppr.addr .rel) h hpp
     (fun e he => ⟨(Ents.mem_items.mp he).1, by rw [(Ents.mem_items.mp he).2.2]; simp, (Ents.mem_items.mp he).2.1⟩)
@@ -282,7 +290,7 @@ theorem syncW_inv {x : Option Nat} {w : World} (h : WInvX x w) (p : Nat) (ppr : 
   obtain ⟨w1, hw1⟩ : ∃ w1, w1 = (Ents.items w.ents ppr.addr .rel).foldl (fun w e => if (w.req e.rid).alarm = none then
         retryReleaseW p e.rid true w else w) w := ⟨_, rfl⟩
   rw [← hw1] at A
-  obtain ⟨a1, a2, a3, a4, a5⟩ := A
+  obtain ⟨a1, a2, a3, a4, a5, a6⟩ := A
   have hpa1 : w1.paddr p = ppr.addr := by simp [World.paddr, World.proto, a2, hpp]
   have B := syncLoop_inv (x := x) p ppr hlive false (Ents.items w1.ents ppr.addr .pub) a1 (by rw [a2]; exact hpp)
     (fun e he => ⟨(Ents.mem_items.mp he).1, by rw [(Ents.mem_items.mp he).2.2]; simp, (Ents.mem_items.mp he).2.1⟩)
@@ -292,8 +300,8 @@ theorem syncW_inv {x : Option Nat} {w : World} (h : WInvX x w) (p : Nat) (ppr : 
     simp only [syncW, hpa]
     rw [← hw1, hpa1]
   rw [hs]
-  obtain ⟨b1, b2, b3, b4, b5⟩ := B
-  refine ⟨b1, by rw [b2, a2], by rw [b3, a3], fun r hr => b4 r (a4 r hr), ?_⟩
+  obtain ⟨b1, b2, b3, b4, b5, b6⟩ := B
+  refine ⟨b1, by rw [b2, a2], by rw [b3, a3], fun r hr => b4 r (a4 r hr), ?_, by rw [b6, a6]⟩
   intro y hy hya hyb
   rw [b3] at hy
   rcases hyb with hyb | hyb
@@ -355,5 +363,17 @@ theorem refillW_armed (p : Nat) (dup : Bool) (a : Nat) (fuel : Nat) :
           · subst hy
             exact (retryPublishW_alarm p e.rid dup _ e.rid).2.2 (by rw [hreq2]; exact hm0)
       · exact h
+
+theorem refillW_connReqs (p : Nat) (dup : Bool) (fuel : Nat) : ∀ (w : World), (refillW p dup fuel w).connReqs = w.connReqs := by
+  induction fuel with
+  | zero => intro w; rfl
+  | succ f ih =>
+    intro w
+    simp only [refillW]
+    split
+    · rfl
+    · split
+      · rw [ih, retryPublishW_connReqs]; split <;> rfl
+      · rfl
 
 end Mqtt
